@@ -91,6 +91,7 @@ struct DynNode
 	float f32 = 0; double f64 = 0;
 	std::string s; std::u16string s16; std::u32string s32; std::wstring ws;
 	std::vector<unsigned char> bin;
+	bool binAsArray = false;        // Bin, saving only: written as a plain array of small integers (what a `std::vector<uint16_t>` of an older class version wrote); byte containers are documented to accept both
 	std::chrono::system_clock::time_point tp{};   // K::Ts (binary timestamp in MsgPack, ISO-8601 text elsewhere)
 	std::vector<DynNode> items;     // Arr: elements, Obj: member values
 	std::vector<Key> keys;          // Obj: member keys (parallel to items)
@@ -256,7 +257,13 @@ void DynNode::Member(A& ar, const TKey& key, DynNode& c)
 	case K::Str32: kv(c.s32); break;
 	case K::WStr: kv(c.ws); break;
 	case K::Ts: kv(c.tp); break;
-	case K::Bin: if constexpr (!flat) { kv(c.bin); } break;
+	case K::Bin:
+		if constexpr (!flat)
+		{
+			if constexpr (!A::IsLoading()) { if (c.binAsArray) { std::vector<uint16_t> plain(c.bin.begin(), c.bin.end()); kv(plain); break; } }
+			kv(c.bin);
+		}
+		break;
 	case K::Arr: if constexpr (!flat) { ArrView v{ &c }; kv(v); } break;
 	case K::Obj: if constexpr (!flat) { kv(c); } break;
 	default: break;
@@ -294,7 +301,9 @@ bool DynNode::Item(A& ar, DynNode& c)
 		case K::Str32: return Serialize(ar, c.s32);
 		case K::WStr: return Serialize(ar, c.ws);
 		case K::Ts: return Serialize(ar, c.tp);
-		case K::Bin: return Serialize(ar, c.bin);
+		case K::Bin:
+			if constexpr (!A::IsLoading()) { if (c.binAsArray) { std::vector<uint16_t> plain(c.bin.begin(), c.bin.end()); return Serialize(ar, plain); } }
+			return Serialize(ar, c.bin);
 		case K::Arr: { ArrView v{ &c }; return Serialize(ar, v); }
 		case K::Obj: return Serialize(ar, c);
 		default: return false;
